@@ -317,6 +317,10 @@ func exercise(valueOf func(jsonapi.Attr, int) any, s gen.Shape, arg any, how str
 }
 
 func shapeLabels(s gen.Shape) (labels []string, unusual bool, tagged int, hasID bool) {
+	if s.EmbedID {
+		labels = append(labels, "id:embedded")
+	}
+
 	for _, f := range s.Fields {
 		if f.Name == "ID" {
 			hasID = true
